@@ -168,7 +168,8 @@ def check_case(acc, name, m, interval, direction, tier='quick', seed=0):
                 if abs(exp[1]) > 2:
                     continue
                 try:
-                    got = R.parse(p1)
+                    q1 = p1.rstrip('XxiIjZyY')
+                    got = R.parse(q1[:-1] if q1.endswith('n') else q1)      # a natural sign spells alteration 0
                 except ValueError:
                     got = p1
                 if got != exp:
